@@ -471,6 +471,15 @@ class String(FieldValidator[_P, str], Generic[_P]):
             self.validate_one(value)
         setattr(obj, self._private_name, value.encode("ascii"))
 
+        # ctypes only writes the characters and one terminating NUL: clear the rest of
+        # the field so that no bytes of a previous, longer value are left behind
+        field = getattr(type(obj), self._private_name)
+        used = len(getattr(obj, self._private_name))
+        if used < field.size:
+            ctypes.memset(
+                ctypes.addressof(obj) + field.offset + used, 0, field.size - used
+            )
+
     def validate_one(self, value: str):
         """Validate a string value
 
